@@ -54,6 +54,39 @@ fn check_all() -> Option<(String, String)> {
   if kind_cbor(good, &[0x82, 0x01, 0x02]) != "Ok" || kind_json(good, "[1,2]") != "Ok" {
     return Some(("ok".into(), "conforming document is not Ok".into()));
   }
+  // repeating a call yields the same ordered list of (location, reason) pairs
+  let many = "m = { a: int, b: int, c: int, d: int, e: int, f: int, g: int, h: int }\n";
+  let jdoc = r#"{"a":"x","b":"x","c":"x","d":"x","e":"x","f":"x","g":"x","h":"x"}"#;
+  let list_json = || match cddl::validate_json_from_str(many, jdoc, None) {
+    Err(cddl::validator::json::Error::Validation(l)) => l.iter().map(|e| (e.json_location.clone(), e.reason.clone())).collect::<Vec<_>>(),
+    _ => vec![],
+  };
+  let first = list_json();
+  if first.len() < 2 {
+    return Some(("repeat-json".into(), format!("expected several errors for the 8-member document, got {}", first.len())));
+  }
+  for _ in 0..24 {
+    if list_json() != first {
+      return Some(("repeat-json".into(), "repeating validate_json_from_str yields a differently ordered error list".into()));
+    }
+  }
+  let mut cdoc = vec![0xa8u8];
+  for k in b"abcdefgh" {
+    cdoc.extend_from_slice(&[0x61, *k, 0x61, b'x']);
+  }
+  let list_cbor = || match cddl::validate_cbor_from_slice(many, &cdoc, None) {
+    Err(cddl::validator::cbor::Error::Validation(l)) => l.iter().map(|e| (e.cbor_location.clone(), e.reason.clone())).collect::<Vec<_>>(),
+    _ => vec![],
+  };
+  let firstc = list_cbor();
+  if firstc.len() < 2 {
+    return Some(("repeat-cbor".into(), format!("expected several errors for the 8-member map, got {}", firstc.len())));
+  }
+  for _ in 0..24 {
+    if list_cbor() != firstc {
+      return Some(("repeat-cbor".into(), "repeating validate_cbor_from_slice yields a differently ordered error list".into()));
+    }
+  }
   None
 }
 
@@ -68,7 +101,7 @@ pub fn find(_args: &[String]) -> i32 {
       1
     }
     Ok(None) => {
-      println!("{{\"found\":false,\"tried\":18}}");
+      println!("{{\"found\":false,\"tried\":68}}");
       0
     }
   }
